@@ -24,7 +24,7 @@ class Cell:
 
     def __init__(self, obs="F2_total", process="NC", fns="ZM-VFNS", nfff=4, pto=1, pto_evol=None, tmc=0,
                  projectile="electron", target="proton", fonllparts=None, nf=None, ren_sv=True, fact_sv=True,
-                 n3lo_var=0, pos_charge=None, kin_y=False, legacy_ptodis=True, kin_x=None, shared_before=()):
+                 n3lo_var=0, pos_charge=None, kin_y=False, legacy_ptodis=True, kin_x=None, shared_before=(), kin_q2=None, theory_overrides=None):
         self.obs = obs
         self.process = process
         self.fns = fns
@@ -44,6 +44,8 @@ class Cell:
         self.legacy_ptodis = legacy_ptodis
         self.kin_x = kin_x  # override of the requested x (a normal form), default the symbol xB
         self.shared_before = tuple(shared_before)  # observables requested before cell.obs with the *same* kinematics list object
+        self.kin_q2 = kin_q2  # override of the requested Q2 (a concrete number), default the symbol Q2
+        self.theory_overrides = dict(theory_overrides or {})  # concrete theory-card entries (e.g. masses for threshold-boundary cells)
 
     def label(self):
         return (f"{self.obs}|{self.process}|{self.fns}|NfFF={self.nfff}|PTO={self.pto}|PTOevol={self.pto_evol}|TMC={self.tmc}"
@@ -84,6 +86,7 @@ def theory_card(cell):
         "nfref": 5,
         "alphas": s("alphas_ref", True),
     }
+    t.update(cell.theory_overrides)
     return t
 
 
@@ -94,6 +97,8 @@ def observables_card(cell, n_points=1):
         k = {"x": s("xB" if i == 0 else f"xB{i}", True), "Q2": s("Q2" if i == 0 else f"Q2_{i}", True)}
         if i == 0 and cell.kin_x is not None:
             k["x"] = cell.kin_x
+        if i == 0 and cell.kin_q2 is not None:
+            k["Q2"] = cell.kin_q2
         if cell.kin_y:
             k["y"] = s("y" if i == 0 else f"y{i}", True)
         kins.append(k)
@@ -154,7 +159,47 @@ def _matching_scales(ev, scales):
 
 
 def _atlas(ev, matching_scales=None, origin=None, **kw):
-    return S.record("Atlas", matching_scales=matching_scales, origin=origin)
+    # eko.matchings.Atlas: walls = [0] + matching scales + [inf]
+    scales = list(matching_scales.data if isinstance(matching_scales, S.Arr) else matching_scales or [])
+    return S.record("Atlas", matching_scales=matching_scales, origin=origin, walls=[0] + scales + [S.INF])
+
+
+def _count_walls(cell, walls, value, counts_equal):
+    """Number of walls w with w < value (or w <= value if counts_equal) for an ascending wall list; symbolic walls
+    (ZM-VFNS cells keep the matching scales symbolic) are resolved through the cell's number of flavours."""
+    ws = [S.num_norm(w) for w in (walls.data if isinstance(walls, S.Arr) else walls)]
+    v = S.num_norm(value)
+    if any(isinstance(w, A.Rat) for w in ws) or isinstance(v, A.Rat):
+        concrete = [w for w in ws if not isinstance(w, A.Rat)]
+        if not isinstance(v, A.Rat) and not any(isinstance(w, A.Rat) for w in ws):
+            pass
+        elif cell.nf is not None and ws and ws[0] == 0 and S.is_inf(ws[-1]):
+            return cell.nf - 2  # walls [0, c, b, t, inf]: nf = 2 + count
+        else:
+            raise Undecided("position of a symbolic scale among symbolic walls")
+    n = 0
+    for w in ws:
+        if S.is_inf(w):
+            continue
+        if w < v or (counts_equal and w == v):
+            n += 1
+    return n
+
+
+def make_searchsorted(cell):
+    def searchsorted(ev, a, v, side="left", **kw):
+        # index i with a[i-1] < v <= a[i] (left) or a[i-1] <= v < a[i] (right)
+        return _count_walls(cell, a, v, counts_equal=(side == "right"))
+
+    return searchsorted
+
+
+def make_digitize(cell):
+    def digitize(ev, x, bins, right=False, **kw):
+        # right=False: bins[i-1] <= x < bins[i]
+        return _count_walls(cell, bins, x, counts_equal=not right)
+
+    return digitize
 
 
 def make_nf_default(cell):
@@ -292,6 +337,8 @@ def fold_runner(proj, cell, n_points=1, on_call=None, assume_valid_kin=True, ext
         "eko.quantities.heavy_quarks.MatchingScales": _matching_scales,
         "eko.matchings.Atlas": _atlas,
         "eko.matchings.nf_default": make_nf_default(cell),
+        "numpy.searchsorted": make_searchsorted(cell),
+        "numpy.digitize": make_digitize(cell),
     }
     ext.update(extra_ext or {})
     overrides = {}
